@@ -12,6 +12,7 @@
 #include <stdio.h>
 #include <stdlib.h>
 #include <string.h>
+#include <stdint.h>
 
 #include "core/AsmContext.h"
 #include "core/directives_if.h"
@@ -25,6 +26,7 @@ int ifdef_ignore(AsmContext *asm_context)
   char token[TOKENLEN];
   int token_type;
   int nested_if = 0;
+  uint64_t else_seen = 0; // One bit per nesting level of the skipped text.
 
   while (1)
   {
@@ -53,6 +55,16 @@ int ifdef_ignore(AsmContext *asm_context)
       if (strcasecmp(token, "else") == 0)
       {
         if (nested_if == 0) { return 2; }
+
+        const uint64_t mask = (uint64_t)1 << (nested_if & 63);
+
+        if ((else_seen & mask) != 0)
+        {
+          print_error(asm_context, "More than one .else in conditional");
+          return -1;
+        }
+
+        else_seen |= mask;
       }
         else
       if (strcasecmp(token, "if") == 0 ||
@@ -60,6 +72,7 @@ int ifdef_ignore(AsmContext *asm_context)
           strcasecmp(token, "ifndef") == 0)
       {
         nested_if++;
+        else_seen &= ~((uint64_t)1 << (nested_if & 63));
       }
     }
   }
